@@ -3,7 +3,6 @@ package html
 import (
 	"fmt"
 	"io"
-	"unicode"
 
 	"github.com/elliotchance/gedcom/v39/html/core"
 )
@@ -19,9 +18,11 @@ func NewSurnameLink(surname string) *SurnameLink {
 }
 
 func (c *SurnameLink) WriteHTMLTo(w io.Writer) (int64, error) {
-	firstLetter := rune(c.surname[0])
-	lowerFirstLetter := unicode.ToLower(firstLetter)
-	destination := fmt.Sprintf("%s#%s", PageIndividuals(lowerFirstLetter), c.surname)
+	// This must be the same letter that was used to create the pages for the
+	// individuals. Surnames that do not start with a letter from "a" to "z" are
+	// all on the page for symbols.
+	destination := fmt.Sprintf("%s#%s",
+		PageIndividuals(getIndexLetterForSurname(c.surname)), c.surname)
 
 	return core.NewLink(core.NewText(c.surname), destination).WriteHTMLTo(w)
 }
